@@ -1,6 +1,83 @@
-(* PESound.v — soundness of peval on a fragment (property C13). *)
+(* PESound.v — soundness of the partial evaluator peval (property C13).
+   Small lemmas per peval arm; the main theorem is the dispatching induction. *)
 From Coq Require Import Lia.
-From Cedar Require Import PE.
+From Cedar Require Import PE ValueProofs PEProofs.
+
+(* ---- induction principle for expressions with the nested lists ---- *)
+Section ExprInd.
+  Variable P : expr -> Prop.
+  Hypothesis HLit : forall p, P (Lit p).
+  Hypothesis HVar : forall v, P (Var v).
+  Hypothesis HSlot : forall s, P (Slot s).
+  Hypothesis HUnknown : forall n ty, P (Unknown n ty).
+  Hypothesis HIf : forall c t f, P c -> P t -> P f -> P (If c t f).
+  Hypothesis HAnd : forall a b, P a -> P b -> P (And a b).
+  Hypothesis HOr : forall a b, P a -> P b -> P (Or a b).
+  Hypothesis HUn : forall op a, P a -> P (UnApp op a).
+  Hypothesis HBin : forall op a b, P a -> P b -> P (BinApp op a b).
+  Hypothesis HExt : forall fn args, Forall P args -> P (ExtCall fn args).
+  Hypothesis HGet : forall e a, P e -> P (GetAttr e a).
+  Hypothesis HHas : forall e a, P e -> P (HasAttr e a).
+  Hypothesis HLike : forall e p, P e -> P (Like e p).
+  Hypothesis HIs : forall e t, P e -> P (Is e t).
+  Hypothesis HSet : forall items, Forall P items -> P (SetE items).
+  Hypothesis HRec : forall items, Forall P (map snd items) -> P (RecordE items).
+
+  Fixpoint expr_ind' (e : expr) : P e :=
+    match e with
+    | Lit p => HLit p
+    | Var v => HVar v
+    | Slot s => HSlot s
+    | Unknown n ty => HUnknown n ty
+    | If c t f => HIf c t f (expr_ind' c) (expr_ind' t) (expr_ind' f)
+    | And a b => HAnd a b (expr_ind' a) (expr_ind' b)
+    | Or a b => HOr a b (expr_ind' a) (expr_ind' b)
+    | UnApp op a => HUn op a (expr_ind' a)
+    | BinApp op a b => HBin op a b (expr_ind' a) (expr_ind' b)
+    | ExtCall fn args =>
+        HExt fn args ((fix go (l : list expr) : Forall P l :=
+                         match l with [] => Forall_nil P | x :: l' => Forall_cons x (expr_ind' x) (go l') end) args)
+    | GetAttr x a => HGet x a (expr_ind' x)
+    | HasAttr x a => HHas x a (expr_ind' x)
+    | Like x p => HLike x p (expr_ind' x)
+    | Is x t => HIs x t (expr_ind' x)
+    | SetE items =>
+        HSet items ((fix go (l : list expr) : Forall P l :=
+                       match l with [] => Forall_nil P | x :: l' => Forall_cons x (expr_ind' x) (go l') end) items)
+    | RecordE items =>
+        HRec items ((fix go (l : list (str * expr)) : Forall P (map snd l) :=
+                       match l with
+                       | [] => Forall_nil P
+                       | (k, x) :: l' => Forall_cons x (expr_ind' x) (go l')
+                       end) items)
+    end.
+End ExprInd.
+
+(* ---- results that agree: equal values, or both errors (the error class may differ) ---- *)
+Definition agree {A} (a b : res A) : Prop :=
+  match a, b with
+  | Ok x, Ok y => x = y
+  | Err _, Err _ => True
+  | _, _ => False
+  end.
+
+Lemma agree_refl {A} (a : res A) : agree a a.
+Proof. destruct a; cbn; auto. Qed.
+
+Lemma agree_bind {A B} (a b : res A) (f : A -> res B) : agree a b -> agree (bind a f) (bind b f).
+Proof. destruct a, b; cbn; intros H; try contradiction; subst; auto using agree_refl. Qed.
+
+Lemma agree_ok_r {A} (a : res A) v : agree a (Ok v) -> a = Ok v.
+Proof. destruct a; cbn; intros H; [subst; reflexivity | contradiction]. Qed.
+
+Lemma agree_err_r {A} (a : res A) x : agree a (Err x) -> exists y, a = Err y.
+Proof. destruct a; cbn; intros H; [contradiction | eauto]. Qed.
+
+Lemma agree_trans {A} (a b c : res A) : agree a b -> agree b c -> agree a c.
+Proof. destruct a, b, c; cbn; intros; try contradiction; subst; auto. Qed.
+
+Lemma agree_sym {A} (a b : res A) : agree a b -> agree b a.
+Proof. destruct a, b; cbn; intros; try contradiction; subst; auto. Qed.
 
 Section Sound.
   Variable sg : mapper.
@@ -8,7 +85,10 @@ Section Sound.
   Variable q : request.
   Variable es : entities.
   Notation ev := (eval sl q es).
+  Notation S := (subst sg).
+  Notation wt := (wt_expr sg).
 
+  (* ---- closed forms of the nested fixpoints ---- *)
   Lemma eval_set l : ev (SetE l) = do vs <- mapM ev l; Ok (VSet vs).
   Proof.
     cbn [eval].
@@ -17,108 +97,152 @@ Section Sound.
     rewrite E. reflexivity.
   Qed.
 
-  Fixpoint mapM_rec (l : list (str * expr)) : res (list (str * value)) :=
-    match l with
-    | [] => Ok []
-    | (k, x) :: l' => do v <- ev x; do kvs <- mapM_rec l'; Ok ((k, v) :: kvs)
-    end.
-
-  Lemma eval_record l : ev (RecordE l) = do kvs <- mapM_rec l; Ok (VRecord kvs).
+  Lemma eval_ext fn l : ev (ExtCall fn l) = do vs <- mapM ev l; call_ext fn vs.
   Proof.
     cbn [eval].
-    match goal with |- bind ?a _ = _ => assert (E : a = mapM_rec l) end.
-    { induction l as [|[k x] l IH]; [reflexivity|]. cbn [mapM_rec]. rewrite <- IH. reflexivity. }
+    match goal with |- bind ?a _ = _ => assert (E : a = mapM ev l) end.
+    { induction l as [|x l IH]; [reflexivity|]. cbn [mapM]. rewrite <- IH. reflexivity. }
     rewrite E. reflexivity.
   Qed.
 
-  (* size of a value, for the nested induction *)
+  Lemma eval_record l :
+    ev (RecordE l) = do vs <- mapM ev (map snd l); Ok (VRecord (combine (map fst l) vs)).
+  Proof.
+    cbn [eval].
+    match goal with |- bind ?a _ = _ =>
+      assert (E : a = do vs <- mapM ev (map snd l); Ok (combine (map fst l) vs)) end.
+    { induction l as [|[k x] l IH]; [reflexivity|]. cbn [map mapM fst snd]. rewrite IH.
+      destruct (ev x); cbn [bind]; [|reflexivity]. destruct (mapM ev (map snd l)); reflexivity. }
+    rewrite E. destruct (mapM ev (map snd l)); reflexivity.
+  Qed.
+
+  Lemma wt_list_closed (l : list expr) :
+    (fix go (l : list expr) : bool := match l with [] => true | x :: l' => wt x && go l' end) l = forallb wt l.
+  Proof. induction l as [|x l IH]; [reflexivity|]. cbn [forallb]. rewrite <- IH. reflexivity. Qed.
+
+  Lemma wt_set l : wt (SetE l) = forallb wt l.
+  Proof. cbn [wt_expr]. apply wt_list_closed. Qed.
+  Lemma wt_ext fn l : wt (ExtCall fn l) = forallb wt l.
+  Proof. cbn [wt_expr]. apply wt_list_closed. Qed.
+  Lemma wt_record l : wt (RecordE l) = forallb wt (map snd l).
+  Proof.
+    cbn [wt_expr]. induction l as [|[k x] l IH]; [reflexivity|]. cbn [map forallb snd]. rewrite <- IH. reflexivity.
+  Qed.
+
+  Lemma subst_record l : S (RecordE l) = RecordE (map (fun kx => (fst kx, S (snd kx))) l).
+  Proof. reflexivity. Qed.
+
+  Lemma map_fst_subst (l : list (str * expr)) : map fst (map (fun kx => (fst kx, S (snd kx))) l) = map fst l.
+  Proof. rewrite map_map. reflexivity. Qed.
+  Lemma map_snd_subst (l : list (str * expr)) : map snd (map (fun kx => (fst kx, S (snd kx))) l) = map S (map snd l).
+  Proof. rewrite !map_map. reflexivity. Qed.
+
+  (* ---- From<Value> for Expr: denotes the value, closed, well-typed ---- *)
   Fixpoint vsize (v : value) : nat :=
     match v with
-    | VSet l => S ((fix go (l : list value) : nat := match l with [] => O | x :: l' => (vsize x + go l')%nat end) l)
-    | VRecord l => S ((fix go (l : list (str * value)) : nat := match l with [] => O | (_, x) :: l' => (vsize x + go l')%nat end) l)
+    | VSet l => Datatypes.S ((fix go (l : list value) : nat := match l with [] => O | x :: l' => (vsize x + go l')%nat end) l)
+    | VRecord l => Datatypes.S ((fix go (l : list (str * value)) : nat := match l with [] => O | (_, x) :: l' => (vsize x + go l')%nat end) l)
     | _ => 1%nat
     end.
 
-  Lemma vsize_pos v : (0 < vsize v)%nat.
-  Proof. destruct v; cbn; lia. Qed.
+  Definition v2e_good (v : value) (x : expr) : Prop := ev x = Ok v /\ S x = x /\ wt x = true.
 
-  (* From<Value> for Expr denotes the value, and contains no unknowns *)
-  Lemma v2e_sound_n : forall n v, (vsize v < n)%nat -> forall x, v2e v = Some x -> ev (subst sg x) = Ok v.
+  Lemma v2e_props_n : forall n v, (vsize v < n)%nat -> forall x, v2e v = Some x -> v2e_good v x.
   Proof.
     induction n as [|n IH]; [lia|]. intros v Hn x H. destruct v as [p | l | l | xx]; cbn [v2e] in H.
-    - inversion H; subst. reflexivity.
+    - inversion H; subst. repeat split.
     - match type of H with option_map _ (?g l) = _ => remember g as go eqn:Ego end.
-      destruct (go l) as [xs|] eqn:G; cbn in H; inversion H; subst x. cbn [subst]. rewrite eval_set.
-      assert (L : mapM ev (map (subst sg) xs) = Ok l).
+      destruct (go l) as [xs|] eqn:G; cbn in H; inversion H; subst x.
+      assert (L : mapM ev xs = Ok l /\ map S xs = xs /\ forallb wt xs = true).
       { clear H. revert xs G. cbn [vsize] in Hn.
         induction l as [|v0 l IHl]; intros xs G.
-        - rewrite Ego in G. inversion G. reflexivity.
+        - rewrite Ego in G. inversion G. repeat split.
         - rewrite Ego in G. rewrite <- Ego in G.
           destruct (v2e v0) as [e0|] eqn:E0; [|discriminate].
           destruct (go l) as [xs'|] eqn:G'; [|discriminate]. inversion G; subst xs.
-          cbn [map mapM]. rewrite (IH v0); [|lia|exact E0]. cbn [bind].
-          rewrite (IHl); [reflexivity| lia | reflexivity]. }
-      rewrite L. reflexivity.
+          destruct (IH v0 ltac:(lia) e0 E0) as [A [B C]].
+          destruct (IHl ltac:(lia) xs' eq_refl) as [A' [B' C']].
+          cbn [map mapM forallb]. rewrite A, B, C, A', B', C'. repeat split. }
+      destruct L as [A [B C]]. unfold v2e_good. rewrite eval_set, wt_set. cbn [subst]. rewrite A, B, C. repeat split.
     - match type of H with option_map _ (?g l) = _ => remember g as go eqn:Ego end.
-      destruct (go l) as [xs|] eqn:G; cbn in H; inversion H; subst x. cbn [subst]. rewrite eval_record.
-      assert (L : mapM_rec (map (fun kx => (fst kx, subst sg (snd kx))) xs) = Ok l).
+      destruct (go l) as [xs|] eqn:G; cbn in H; inversion H; subst x.
+      assert (L : mapM ev (map snd xs) = Ok (map snd l) /\ map fst xs = map fst l /\
+                  map (fun kx => (fst kx, S (snd kx))) xs = xs /\ forallb wt (map snd xs) = true).
       { clear H. revert xs G. cbn [vsize] in Hn.
         induction l as [|[k0 v0] l IHl]; intros xs G.
-        - rewrite Ego in G. inversion G. reflexivity.
+        - rewrite Ego in G. inversion G. repeat split.
         - rewrite Ego in G. rewrite <- Ego in G.
           destruct (v2e v0) as [e0|] eqn:E0; [|discriminate].
           destruct (go l) as [xs'|] eqn:G'; [|discriminate]. inversion G; subst xs.
-          cbn [map mapM_rec fst snd]. rewrite (IH v0); [|lia|exact E0]. cbn [bind].
-          rewrite (IHl); [reflexivity| lia | reflexivity]. }
-      rewrite L. reflexivity.
+          destruct (IH v0 ltac:(lia) e0 E0) as [A [B C]].
+          destruct (IHl ltac:(lia) xs' eq_refl) as [A' [F' [B' C']]].
+          cbn [map mapM forallb fst snd]. rewrite A, B, C, A', B', C', F'. repeat split. }
+      destruct L as [A [F [B C]]]. unfold v2e_good. rewrite eval_record, wt_record, subst_record. rewrite A, B, C, F.
+      cbn [bind]. repeat split. f_equal. f_equal.
+      clear. induction l as [|[k v] l IH]; [reflexivity|]. cbn. rewrite IH. reflexivity.
     - discriminate.
   Qed.
 
-  Lemma v2e_sound v x : v2e v = Some x -> ev (subst sg x) = Ok v.
-  Proof. apply (v2e_sound_n (S (vsize v))). lia. Qed.
+  Lemma v2e_props v x : v2e v = Some x -> v2e_good v x.
+  Proof. apply (v2e_props_n (Datatypes.S (vsize v))). lia. Qed.
+
+  Lemma v2e_sound v x : v2e v = Some x -> ev (S x) = Ok v.
+  Proof. intros H. destruct (v2e_props v x H) as [A [B _]]. rewrite B. exact A. Qed.
+  Lemma v2e_wt v x : v2e v = Some x -> wt x = true.
+  Proof. intros H. apply (v2e_props v x H). Qed.
 End Sound.
 
 (* ------------------------------------------------------------------------------------------ *)
-(* soundness of peval (no mapper) on the fragment  lit | var | slot | unknown | && | || | if |   *)
-(* unary operators | like | is                                                                  *)
+(* peval is sound for every complete, well-typed substitution sg that extends the mapper mu     *)
 (* ------------------------------------------------------------------------------------------ *)
-Definition agree (a b : res value) : Prop :=
-  match a, b with
-  | Ok x, Ok y => x = y
-  | Err _, Err _ => True
-  | _, _ => False
-  end.
-
-Fixpoint in_fragment (e : expr) : bool :=
-  match e with
-  | Lit _ | Var _ | Slot _ | Unknown _ _ => true
-  | And a b | Or a b => in_fragment a && in_fragment b
-  | If c t f => in_fragment c && in_fragment t && in_fragment f
-  | UnApp _ a | Like a _ | Is a _ => in_fragment a
-  | _ => false
-  end.
-
 Section Frag.
-  Variable sg : mapper.
+  Variable sg mu : mapper.
   Variable sl : slotenv.
   Variable pq : prequest.
   Variable pes : pentities.
   Variable q : request.
   Variable es : entities.
   Notation ev := (eval sl q es).
+  Notation S := (subst sg).
+  Notation wt := (wt_expr sg).
+  Notation pe := (peval mu sl pq pes).
 
-  (* what a partial result promises about the concrete evaluation of (sigma e) *)
-  Definition sound_pres (p : pres) (e : expr) : Prop :=
+  (* what a partial result promises about a concrete result c *)
+  Definition sound_res (p : pres) (c : res value) : Prop :=
     match p with
-    | PV v => ev (subst sg e) = Ok v
-    | PR r => agree (ev (subst sg r)) (ev (subst sg e))
-    | PErr _ => exists x, ev (subst sg e) = Err x
+    | PV v => c = Ok v
+    | PR r => agree (ev (S r)) c /\ wt r = true
+    | PErr _ => exists x, c = Err x
     | POut => True
     end.
+  (* ... about the concrete evaluation of (sg e) *)
+  Definition sound_pres (p : pres) (e : expr) : Prop := sound_res p (ev (S e)).
 
-  Lemma agree_refl a : agree a a.
-  Proof. destruct a; cbn; auto. Qed.
+  (* one-step equations of the concrete evaluator *)
+  Lemma ev_if c t f : ev (If c t f) = do vc <- ev c; do b <- as_bool vc; if b then ev t else ev f.
+  Proof. reflexivity. Qed.
+  Lemma ev_and a b : ev (And a b) =
+    do va <- ev a; do x <- as_bool va;
+    if x then (do vb <- ev b; do y <- as_bool vb; Ok (VBool y)) else Ok (VBool false).
+  Proof. reflexivity. Qed.
+  Lemma ev_or a b : ev (Or a b) =
+    do va <- ev a; do x <- as_bool va;
+    if x then Ok (VBool true) else (do vb <- ev b; do y <- as_bool vb; Ok (VBool y)).
+  Proof. reflexivity. Qed.
+  Lemma ev_unapp op a : ev (UnApp op a) = do v <- ev a; unary_app op v. Proof. reflexivity. Qed.
+  Lemma ev_binapp op a b : ev (BinApp op a b) = do va <- ev a; do vb <- ev b; binary_app es op va vb.
+  Proof. reflexivity. Qed.
+  Lemma ev_getattr x a : ev (GetAttr x a) = do v <- ev x; get_attr es v a. Proof. reflexivity. Qed.
+  Lemma ev_hasattr x a : ev (HasAttr x a) = do v <- ev x; has_attr es v a. Proof. reflexivity. Qed.
+  Lemma ev_like x p : ev (Like x p) = do v <- ev x; do s <- as_string v; Ok (VBool (wildcard p s)).
+  Proof. reflexivity. Qed.
+  Lemma ev_is x t : ev (Is x t) = do v <- ev x; do u <- as_entity v; Ok (VBool (name_eqb (uty u) t)).
+  Proof. reflexivity. Qed.
 
+  Lemma sound_of_res r : sound_res (of_res r) r.
+  Proof. destruct r; cbn; eauto. Qed.
+
+  (* ---- the folding builders ---- *)
   Lemma eval_mk_and a b : ev (mk_and a b) = ev (And a b).
   Proof.
     destruct a; try reflexivity. destruct p; try reflexivity.
@@ -141,62 +265,656 @@ Section Frag.
     destruct a; try (right; reflexivity). destruct p; try (right; reflexivity).
     destruct b; try (right; reflexivity). destruct p; try (right; reflexivity). left; eauto.
   Qed.
-  Lemma subst_mk_and a b : ev (subst sg (mk_and a b)) = ev (And (subst sg a) (subst sg b)).
+  Lemma subst_mk_and a b : ev (S (mk_and a b)) = ev (And (S a) (S b)).
   Proof.
     destruct (mk_and_cases a b) as [[x [y [Ea Eb]]] | E].
     - subst. destruct x, y; reflexivity.
     - rewrite E. cbn [subst]. apply eval_mk_and.
   Qed.
-  Lemma subst_mk_or a b : ev (subst sg (mk_or a b)) = ev (Or (subst sg a) (subst sg b)).
+  Lemma subst_mk_or a b : ev (S (mk_or a b)) = ev (Or (S a) (S b)).
   Proof.
     destruct (mk_or_cases a b) as [[x [y [Ea Eb]]] | E].
     - subst. destruct x, y; reflexivity.
     - rewrite E. cbn [subst]. apply eval_mk_or.
   Qed.
-
-  Definition and_sem (x y : res value) : res value :=
-    do va <- x; do bx <- as_bool va;
-    if bx then (do vb <- y; do b' <- as_bool vb; Ok (VBool b')) else Ok (VBool false).
-  Definition or_sem (x y : res value) : res value :=
-    do va <- x; do bx <- as_bool va;
-    if bx then Ok (VBool true) else (do vb <- y; do b' <- as_bool vb; Ok (VBool b')).
-  Definition if_sem (c t f : res value) : res value :=
-    do vc <- c; do b <- as_bool vc; if b then t else f.
-
-  Lemma ev_and a b : ev (And a b) = and_sem (ev a) (ev b). Proof. reflexivity. Qed.
-  Lemma ev_or a b : ev (Or a b) = or_sem (ev a) (ev b). Proof. reflexivity. Qed.
-  Lemma ev_if c t f : ev (If c t f) = if_sem (ev c) (ev t) (ev f). Proof. reflexivity. Qed.
-
-  Ltac agr := repeat match goal with
-                     | H : agree ?a ?b |- _ => destruct a, b; cbn in H; try contradiction; subst
-                     end.
-
-  Lemma and_agree x x' y y' : agree x x' -> agree y y' -> agree (and_sem x y) (and_sem x' y').
+  Lemma wt_mk_and a b : wt (mk_and a b) = wt a && wt b.
   Proof.
-    intros H1 H2. unfold and_sem. agr; cbn; auto;
-      try (destruct (as_bool _) as [[|]|]; cbn; auto; try (destruct (as_bool _); cbn; auto)).
+    destruct (mk_and_cases a b) as [[x [y [Ea Eb]]] | E]; [subst; reflexivity | rewrite E; reflexivity].
   Qed.
-  Lemma or_agree x x' y y' : agree x x' -> agree y y' -> agree (or_sem x y) (or_sem x' y').
+  Lemma wt_mk_or a b : wt (mk_or a b) = wt a && wt b.
   Proof.
-    intros H1 H2. unfold or_sem. agr; cbn; auto;
-      try (destruct (as_bool _) as [[|]|]; cbn; auto; try (destruct (as_bool _); cbn; auto)).
+    destruct (mk_or_cases a b) as [[x [y [Ea Eb]]] | E]; [subst; reflexivity | rewrite E; reflexivity].
   Qed.
-  Lemma if_agree c c' t t' f f' :
-    agree c c' -> agree t t' -> agree f f' -> agree (if_sem c t f) (if_sem c' t' f').
+
+  (* congruences of `agree` for the short-circuiting constructs *)
+  Lemma and_agree (x x' y y' : res value) : agree x x' -> agree y y' ->
+    agree (do va <- x; do bx <- as_bool va;
+           if bx then (do vb <- y; do b' <- as_bool vb; Ok (VBool b')) else Ok (VBool false))
+          (do va <- x'; do bx <- as_bool va;
+           if bx then (do vb <- y'; do b' <- as_bool vb; Ok (VBool b')) else Ok (VBool false)).
   Proof.
-    intros H1 H2 H3. unfold if_sem. destruct c, c'; cbn in H1; try contradiction; subst; cbn; auto.
-    destruct (as_bool _) as [[|]|]; cbn; auto.
+    intros H1 H2. destruct x, x'; cbn in H1; try contradiction; subst; cbn [bind]; auto.
+    destruct (as_bool a0) as [[|]|]; cbn [bind]; auto using agree_refl.
+    apply agree_bind. exact H2.
+  Qed.
+  Lemma or_agree (x x' y y' : res value) : agree x x' -> agree y y' ->
+    agree (do va <- x; do bx <- as_bool va;
+           if bx then Ok (VBool true) else (do vb <- y; do b' <- as_bool vb; Ok (VBool b')))
+          (do va <- x'; do bx <- as_bool va;
+           if bx then Ok (VBool true) else (do vb <- y'; do b' <- as_bool vb; Ok (VBool b'))).
+  Proof.
+    intros H1 H2. destruct x, x'; cbn in H1; try contradiction; subst; cbn [bind]; auto.
+    destruct (as_bool a0) as [[|]|]; cbn [bind]; auto using agree_refl.
+    apply agree_bind. exact H2.
+  Qed.
+  Lemma if_agree (c c' t t' f f' : res value) : agree c c' -> agree t t' -> agree f f' ->
+    agree (do vc <- c; do b <- as_bool vc; if b then t else f)
+          (do vc <- c'; do b <- as_bool vc; if b then t' else f').
+  Proof.
+    intros H1 H2 H3. destruct c, c'; cbn in H1; try contradiction; subst; cbn [bind]; auto.
+    destruct (as_bool a0) as [[|]|]; cbn [bind]; auto using agree_refl.
   Qed.
 
   (* the operand a residual keeps for a best-effort sub-evaluation agrees with the source *)
-  Lemma pres_expr_agree b pb b' :
-    sound_pres pb b -> pres_expr b pb = Some b' -> agree (ev (subst sg b')) (ev (subst sg b)).
+  Lemma pres_expr_sound b pb b' :
+    sound_pres pb b -> wt b = true -> pres_expr b pb = Some b' ->
+    agree (ev (S b')) (ev (S b)) /\ wt b' = true.
   Proof.
-    destruct pb; cbn; intros S E.
-    - rewrite (v2e_sound sg sl q es v b' E). rewrite S. reflexivity.
-    - inversion E; subst. exact S.
-    - inversion E; subst. apply agree_refl.
+    unfold sound_pres. destruct pb; cbn [sound_res pres_expr]; intros Sd W E.
+    - rewrite Sd. rewrite (v2e_sound sg sl q es v b' E). split; [reflexivity | exact (v2e_wt sg sl q es v b' E)].
+    - inversion E; subst. exact Sd.
+    - inversion E; subst. split; [apply agree_refl | exact W].
     - discriminate.
   Qed.
 
+  Hypothesis Hmu : forall n v, mu n = Some v -> sg n = Some v.
+  (* q is a sg-completion of pq: the partial value of every request variable is sound *)
+  Hypothesis Hvar : forall v, sound_pres (peval_var pq v) (Var v).
+
+  (* ---- arms ---- *)
+  Lemma arm_lit p : sound_pres (pe (Lit p)) (Lit p).
+  Proof. reflexivity. Qed.
+
+  Lemma arm_slot s : sound_pres (pe (Slot s)) (Slot s).
+  Proof. unfold sound_pres. cbn [peval subst eval]. destruct (slot_lookup s sl); cbn; eauto. Qed.
+
+  Lemma arm_unknown n ty : wt (Unknown n ty) = true -> sound_pres (unknown_to_pv mu n ty) (Unknown n ty).
+  Proof.
+    intros W. unfold unknown_to_pv, sound_pres. destruct (mu n) as [v|] eqn:M.
+    - apply Hmu in M. cbn [wt_expr] in W. cbn [subst]. rewrite M in *.
+      destruct (v2e v) as [x|] eqn:V; [|discriminate].
+      destruct (v2e_props sg sl q es v x V) as [A _].
+      destruct ty as [t|]; [rewrite W|]; exact A.
+    - split; [apply agree_refl | exact W].
+  Qed.
+
+  Lemma arm_unapp op a : sound_pres (pe a) a -> sound_pres (pe (UnApp op a)) (UnApp op a).
+  Proof.
+    unfold sound_pres. cbn [peval subst]. rewrite ev_unapp.
+    destruct (pe a) as [v|r|x|]; cbn [sound_res]; intros H; auto.
+    - rewrite H. apply sound_of_res.
+    - destruct H as [H W]. cbn [subst wt_expr]. rewrite ev_unapp. split; [apply agree_bind; exact H | exact W].
+    - destruct H as [y H]. rewrite H. cbn. eauto.
+  Qed.
+
+  Lemma arm_like a p : sound_pres (pe a) a -> sound_pres (pe (Like a p)) (Like a p).
+  Proof.
+    unfold sound_pres. cbn [peval subst]. rewrite ev_like.
+    destruct (pe a) as [v|r|x|]; cbn [sound_res]; intros H; auto.
+    - rewrite H. cbn [bind]. destruct (as_string v); cbn; eauto.
+    - destruct H as [H W]. cbn [subst wt_expr]. rewrite ev_like. split; [apply agree_bind; exact H | exact W].
+    - destruct H as [y H]. rewrite H. cbn. eauto.
+  Qed.
+
+  (* a well-typed unknown of entity type t evaluates to an entity of type t *)
+  Lemma typed_unknown_entity n t c :
+    wt (Unknown n (Some (RTEntity t))) = true -> agree (ev (S (Unknown n (Some (RTEntity t))))) c ->
+    exists u, c = Ok (VEntity u) /\ uty u = t.
+  Proof.
+    cbn [wt_expr subst]. destruct (sg n) as [v|]; [|discriminate].
+    destruct (v2e v) as [x|] eqn:V; [|discriminate]. intros W A.
+    destruct (v2e_props sg sl q es v x V) as [E _]. rewrite E in A.
+    destruct c; cbn in A; [subst|contradiction].
+    destruct a as [[| | |u]| | |]; cbn in W; try discriminate. exists u. split; [reflexivity|].
+    apply strs_eqb_eq. exact W.
+  Qed.
+
+  Lemma arm_is a t : sound_pres (pe a) a -> sound_pres (pe (Is a t)) (Is a t).
+  Proof.
+    unfold sound_pres. cbn [peval subst]. rewrite ev_is.
+    destruct (pe a) as [v|r|x|]; cbn [sound_res]; intros H; auto.
+    - rewrite H. cbn [bind]. destruct (as_entity v); cbn; eauto.
+    - destruct H as [H W].
+      assert (G : sound_res (PR (Is r t)) (do v <- ev (S a); do u <- as_entity v; Ok (VBool (name_eqb (uty u) t)))).
+      { cbn [sound_res subst wt_expr]. rewrite ev_is. split; [apply agree_bind; exact H | exact W]. }
+      destruct r; try exact G. destruct ty as [[| | | | |t'|]|]; try exact G.
+      destruct (typed_unknown_entity n t' _ W H) as [u [E Ht]]. cbn [sound_res]. rewrite E. cbn. rewrite Ht. reflexivity.
+    - destruct H as [y H]. rewrite H. cbn. eauto.
+  Qed.
+
+  Lemma arm_and a b : wt b = true ->
+    sound_pres (pe a) a -> sound_pres (pe b) b -> sound_pres (pe (And a b)) (And a b).
+  Proof.
+    intros Wb Ha Hb. pose proof (pres_expr_sound b (pe b)) as PB.
+    unfold sound_pres in *. cbn [peval subst]. rewrite eval_mk_and, ev_and.
+    destruct (pe a) as [v|ra|x|]; cbn [sound_res] in *; auto.
+    - rewrite Ha. cbn [bind]. destruct (as_bool v) as [[|]|x]; cbn [bind sound_res]; eauto.
+      destruct (pe b) as [v'|rb|x|]; cbn [sound_res] in *; auto.
+      + rewrite Hb. cbn [bind]. destruct (as_bool v'); cbn; eauto.
+      + destruct Hb as [Hb W]. rewrite subst_mk_and, ev_and, wt_mk_and. cbn [subst eval bind as_bool wt_expr andb].
+        split; [apply agree_bind; exact Hb | exact W].
+      + destruct Hb as [y Hb]. rewrite Hb. cbn. eauto.
+    - destruct Ha as [Ha Wa]. destruct (pres_expr b (pe b)) as [b'|] eqn:E; [|exact I].
+      destruct (PB b' Hb Wb eq_refl) as [A W']. cbn [sound_res]. rewrite subst_mk_and, ev_and, wt_mk_and, Wa, W'.
+      split; [apply and_agree; assumption | reflexivity].
+    - destruct Ha as [y Ha]. rewrite Ha. cbn. eauto.
+  Qed.
+
+  Lemma arm_or a b : wt b = true ->
+    sound_pres (pe a) a -> sound_pres (pe b) b -> sound_pres (pe (Or a b)) (Or a b).
+  Proof.
+    intros Wb Ha Hb. pose proof (pres_expr_sound b (pe b)) as PB.
+    unfold sound_pres in *. cbn [peval subst]. rewrite eval_mk_or, ev_or.
+    destruct (pe a) as [v|ra|x|]; cbn [sound_res] in *; auto.
+    - rewrite Ha. cbn [bind]. destruct (as_bool v) as [[|]|x]; cbn [bind sound_res]; eauto.
+      destruct (pe b) as [v'|rb|x|]; cbn [sound_res] in *; auto.
+      + rewrite Hb. cbn [bind]. destruct (as_bool v'); cbn; eauto.
+      + destruct Hb as [Hb W]. rewrite subst_mk_or, ev_or, wt_mk_or. cbn [subst eval bind as_bool wt_expr andb].
+        split; [apply agree_bind; exact Hb | exact W].
+      + destruct Hb as [y Hb]. rewrite Hb. cbn. eauto.
+    - destruct Ha as [Ha Wa]. destruct (pres_expr b (pe b)) as [b'|] eqn:E; [|exact I].
+      destruct (PB b' Hb Wb eq_refl) as [A W']. cbn [sound_res]. rewrite subst_mk_or, ev_or, wt_mk_or, Wa, W'.
+      split; [apply or_agree; assumption | reflexivity].
+    - destruct Ha as [y Ha]. rewrite Ha. cbn. eauto.
+  Qed.
+
+  Lemma arm_if c t f : wt t = true -> wt f = true ->
+    sound_pres (pe c) c -> sound_pres (pe t) t -> sound_pres (pe f) f -> sound_pres (pe (If c t f)) (If c t f).
+  Proof.
+    intros Wt Wf Hc Ht Hf.
+    pose proof (pres_expr_sound t (pe t)) as PT. pose proof (pres_expr_sound f (pe f)) as PF.
+    unfold sound_pres in *. cbn [peval subst]. rewrite ev_if.
+    destruct (pe c) as [v|g|x|]; cbn [sound_res] in *; auto.
+    - rewrite Hc. cbn [bind]. destruct (as_bool v) as [[|]|x]; cbn [bind sound_res]; eauto.
+    - destruct Hc as [Hc Wg].
+      destruct (pres_expr t (pe t)) as [t'|] eqn:E2; [|exact I].
+      destruct (pres_expr f (pe f)) as [f'|] eqn:E3; [|exact I].
+      destruct (PT t' Ht Wt eq_refl) as [A2 W2]. destruct (PF f' Hf Wf eq_refl) as [A3 W3].
+      cbn [sound_res subst wt_expr]. rewrite ev_if, Wg, W2, W3. split; [apply if_agree; assumption | reflexivity].
+    - destruct Hc as [y Hc]. rewrite Hc. cbn. eauto.
+  Qed.
+
+  (* ---- the store: es is a sg-completion of pes ---- *)
+  Definition attr_complete (pv : option pval) (cv : option value) : Prop :=
+    match pv with
+    | None => cv = None
+    | Some (PVal v) => cv = Some v
+    | Some (PRes e) => exists v, cv = Some v /\ ev (S e) = Ok v /\ wt e = true
+    end.
+  Definition store_complete : Prop :=
+    forall u,
+      match find_pentity u pes with
+      | None => find_entity u es = None
+      | Some pd => exists d, find_entity u es = Some d /\ etags d = ptags pd /\ eancestors d = pancestors pd /\
+                             forall k, attr_complete (lookup k (pattrs pd)) (lookup k (eattrs d))
+      end.
+  Hypothesis Hstore : store_complete.
+
+  Lemma find_erase u :
+    find_entity u (erase_entities pes) =
+    option_map (fun d => mkEdata [] (ptags d) (pancestors d)) (find_pentity u pes).
+  Proof.
+    unfold erase_entities. induction pes as [|[u' d] l IH]; [reflexivity|].
+    cbn [map find_entity find_pentity fst snd]. destruct (uid_eqb u u'); [reflexivity | exact IH].
+  Qed.
+
+  Lemma binary_app_erase op a b : binary_app (erase_entities pes) op a b = binary_app es op a b.
+  Proof.
+    destruct op; try reflexivity; cbn [binary_app].
+    - (* in *)
+      destruct (as_entity a) as [u|]; cbn [bind]; [|reflexivity]. unfold eval_in.
+      rewrite find_erase. pose proof (Hstore u) as H. destruct (find_pentity u pes) as [pd|].
+      + destruct H as [d [F [_ [A _]]]]. rewrite F. cbn [option_map]. unfold is_descendant_of. cbn [eancestors]. rewrite A. reflexivity.
+      + rewrite H. reflexivity.
+    - (* getTag *)
+      destruct (as_entity a) as [u|]; cbn [bind]; [|reflexivity]. destruct (as_string b); cbn [bind]; [|reflexivity].
+      rewrite find_erase. pose proof (Hstore u) as H. destruct (find_pentity u pes) as [pd|].
+      + destruct H as [d [F [T _]]]. rewrite F. cbn [option_map etags]. rewrite T. reflexivity.
+      + rewrite H. reflexivity.
+    - (* hasTag *)
+      destruct (as_entity a) as [u|]; cbn [bind]; [|reflexivity]. destruct (as_string b); cbn [bind]; [|reflexivity].
+      rewrite find_erase. pose proof (Hstore u) as H. destruct (find_pentity u pes) as [pd|].
+      + destruct H as [d [F [T _]]]. rewrite F. cbn [option_map etags]. rewrite T. reflexivity.
+      + rewrite H. reflexivity.
+  Qed.
+
+  Lemma binapp_agree op (x x' y y' : res value) : agree x x' -> agree y y' ->
+    agree (do va <- x; do vb <- y; binary_app es op va vb) (do va <- x'; do vb <- y'; binary_app es op va vb).
+  Proof.
+    intros H1 H2. destruct x, x'; cbn in H1; try contradiction; subst; cbn [bind].
+    - apply agree_bind. exact H2.
+    - exact I.
+  Qed.
+
+  (* the three type-based short circuits only ever answer `false` for `==` on entities of
+     different types *)
+  Lemma sc_value_residual_sound op v1 e2 r c2 :
+    sc_value_residual op v1 e2 = Some r -> agree (ev (S e2)) c2 -> wt e2 = true ->
+    op = BEq /\ r = PV (VBool false) /\ exists v2, c2 = Ok v2 /\ value_eqb v1 v2 = false /\ value_eqb v2 v1 = false.
+  Proof.
+    unfold sc_value_residual. destruct op; try discriminate. destruct v1 as [[| | |u]| | |]; try discriminate.
+    destruct e2; try discriminate. destruct ty as [[| | | | |t|]|]; try discriminate.
+    destruct (name_eqb (uty u) t) eqn:N; [discriminate|]. intros E A W. inversion E; subst r.
+    destruct (typed_unknown_entity n t c2 W A) as [u' [Ec Ht]]. subst t.
+    split; [reflexivity|]. split; [reflexivity|]. exists (VEntity u'). split; [exact Ec|].
+    cbn [value_eqb VEntity prim_eqb]. unfold uid_eqb.
+    assert (N' : name_eqb (uty u') (uty u) = false).
+    { destruct (name_eqb (uty u') (uty u)) eqn:X; [|reflexivity]. apply strs_eqb_eq in X. rewrite X in N.
+      unfold name_eqb in N. rewrite (proj2 (strs_eqb_eq _ _) eq_refl) in N. discriminate. }
+    rewrite N, N'. split; reflexivity.
+  Qed.
+
+  Lemma arm_binapp op a b :
+    sound_pres (pe a) a -> sound_pres (pe b) b -> sound_pres (pe (BinApp op a b)) (BinApp op a b).
+  Proof.
+    intros Ha Hb. unfold sound_pres in *. cbn [peval subst]. rewrite ev_binapp.
+    destruct (pe a) as [v1|e1|x|]; cbn [sound_res] in Ha.
+    - (* value, _ *)
+      rewrite Ha. cbn [bind].
+      destruct (pe b) as [v2|e2|x|]; cbn [sound_res] in Hb.
+      + rewrite Hb. cbn [bind]. rewrite binary_app_erase. apply sound_of_res.
+      + destruct Hb as [Hb W2].
+        destruct (sc_value_residual op v1 e2) as [r|] eqn:SC.
+        * destruct (sc_value_residual_sound _ _ _ _ _ SC Hb W2) as [Eo [Er [v2 [Ec [N _]]]]]. subst op r.
+          rewrite Ec. cbn. rewrite N. reflexivity.
+        * destruct (v2e v1) as [x1|] eqn:V; [|exact I].
+          cbn [sound_res subst wt_expr]. rewrite ev_binapp, (v2e_sound sg sl q es v1 x1 V), (v2e_wt sg sl q es v1 x1 V), W2.
+          cbn [bind]. split; [apply agree_bind; exact Hb | reflexivity].
+      + destruct Hb as [y Hb]. rewrite Hb. cbn. eauto.
+      + exact I.
+    - (* residual, _ *)
+      destruct Ha as [Ha W1].
+      destruct (pe b) as [v2|e2|x|]; cbn [sound_res] in Hb.
+      + rewrite Hb.
+        destruct (sc_residual_value op e1 v2) as [r|] eqn:SC.
+        * assert (SC' : sc_value_residual op v2 e1 = Some r) by (unfold sc_residual_value in SC; destruct op; try discriminate; exact SC).
+          destruct (sc_value_residual_sound _ _ _ _ _ SC' Ha W1) as [Eo [Er [v1 [Ec [_ N]]]]]. subst op r.
+          rewrite Ec. cbn. rewrite N. reflexivity.
+        * destruct (v2e v2) as [x2|] eqn:V; [|exact I].
+          cbn [sound_res subst wt_expr]. rewrite ev_binapp, (v2e_sound sg sl q es v2 x2 V), (v2e_wt sg sl q es v2 x2 V), W1.
+          split; [apply binapp_agree; [exact Ha | reflexivity] | reflexivity].
+      + destruct Hb as [Hb W2].
+        destruct (sc_two_residuals op e1 e2) as [r|] eqn:SC.
+        * unfold sc_two_residuals in SC. destruct op; try discriminate.
+          destruct e1; try discriminate. destruct ty as [[| | | | |t1|]|]; try discriminate.
+          destruct e2; try discriminate. destruct ty as [[| | | | |t2|]|]; try discriminate.
+          destruct (name_eqb t1 t2) eqn:N; [discriminate|]. inversion SC; subst r.
+          destruct (typed_unknown_entity n t1 _ W1 Ha) as [u1 [E1 T1]].
+          destruct (typed_unknown_entity n0 t2 _ W2 Hb) as [u2 [E2 T2]].
+          cbn [sound_res]. rewrite E1, E2. cbn. unfold uid_eqb. rewrite T1, T2, N. reflexivity.
+        * cbn [sound_res subst wt_expr]. rewrite ev_binapp, W1, W2.
+          split; [apply binapp_agree; assumption | reflexivity].
+      + (* the right operand errors: so does the whole application, whatever the left one does *)
+        destruct Hb as [y Hb]. rewrite Hb. cbn [sound_res]. destruct (ev (S a)); cbn; eauto.
+      + exact I.
+    - destruct Ha as [y Ha]. rewrite Ha. cbn. eauto.
+    - exact I.
+  Qed.
+
+
+  (* ---- list-valued arms: set / record literals, extension calls ---- *)
+  Lemma cons_agree (a b : res value) (la lb : res (list value)) : agree a b -> agree la lb ->
+    agree (do v <- a; do vs <- la; Ok (v :: vs)) (do v <- b; do vs <- lb; Ok (v :: vs)).
+  Proof.
+    intros H1 H2. destruct a, b; cbn in H1; try contradiction; subst; cbn [bind]; [|exact I].
+    apply agree_bind. exact H2.
+  Qed.
+
+  Definition sound_plist (pl : plist) (items : list expr) : Prop :=
+    match pl with
+    | PLErr _ => exists x, mapM ev (map S items) = Err x
+    | PLOut => True
+    | PLOk l =>
+        (forall vs, all_vals l = Some vs -> mapM ev (map S items) = Ok vs) /\
+        (forall xs, to_exprs l = Some xs ->
+                    agree (mapM ev (map S xs)) (mapM ev (map S items)) /\ forallb wt xs = true /\
+                    length xs = length items)
+    end.
+
+  Lemma pmapM_sound f items :
+    Forall (fun x => sound_pres (f x) x) items -> sound_plist (pmapM f items) items.
+  Proof.
+    induction 1 as [|x l Hx Hl IH]; [cbn; split; intros ? E; inversion E; cbn; auto|].
+    cbn [pmapM]. unfold sound_pres in Hx.
+    destruct (f x) as [v|r|e|]; cbn [sound_res] in Hx.
+    - destruct (pmapM f l) as [pl|e|]; cbn [sound_plist map mapM] in *; try rewrite Hx; cbn [bind]; auto.
+      + destruct IH as [IH1 IH2]. split.
+        * intros vs E. cbn [all_vals] in E. destruct (all_vals pl) as [vs'|]; [|discriminate]. inversion E; subst.
+          rewrite (IH1 vs' eq_refl). reflexivity.
+        * intros xs E. cbn [to_exprs] in E. destruct (v2e v) as [e0|] eqn:V; [|discriminate].
+          destruct (to_exprs pl) as [xs'|]; [|discriminate]. inversion E; subst.
+          destruct (IH2 xs' eq_refl) as [A [W Ln]]. cbn [map mapM forallb length].
+          rewrite (v2e_sound sg sl q es v e0 V), (v2e_wt sg sl q es v e0 V), W, Ln. cbn [bind].
+          split; [apply agree_bind; exact A | split; reflexivity].
+      + destruct IH as [y IH]. rewrite IH. cbn. eauto.
+    - destruct Hx as [Hx Wr].
+      destruct (pmapM f l) as [pl|e|]; cbn [sound_plist map mapM] in *; auto.
+      + destruct IH as [IH1 IH2]. split.
+        * intros vs E. discriminate E.
+        * intros xs E. cbn [to_exprs] in E. destruct (to_exprs pl) as [xs'|]; [|discriminate]. inversion E; subst.
+          destruct (IH2 xs' eq_refl) as [A [W Ln]]. cbn [map mapM forallb length]. rewrite Wr, W, Ln.
+          split; [apply cons_agree; assumption | split; reflexivity].
+      + destruct IH as [y IH]. rewrite IH. destruct (ev (S x)); cbn; eauto.
+    - destruct Hx as [y Hx]. cbn [sound_plist map mapM]. rewrite Hx. cbn. eauto.
+    - exact I.
+  Qed.
+
+  Lemma pmapM_rec_map f items : pmapM_rec f items = pmapM f (map snd items).
+  Proof.
+    induction items as [|[k x] l IH]; [reflexivity|]. cbn [pmapM_rec pmapM map snd]. rewrite IH. reflexivity.
+  Qed.
+
+  Lemma finish_sound pl items mkv mke (k : list value -> res value) :
+    sound_plist pl items ->
+    (forall vs, sound_res (mkv vs) (k vs)) ->
+    (forall xs, length xs = length items ->
+                ev (S (mke xs)) = (do vs <- mapM ev (map S xs); k vs) /\ wt (mke xs) = forallb wt xs) ->
+    sound_res (finish pl mkv mke) (do vs <- mapM ev (map S items); k vs).
+  Proof.
+    intros H Hv He. unfold finish. destruct pl as [l|e|]; cbn [sound_plist] in H.
+    - destruct H as [H1 H2]. destruct (all_vals l) as [vs|].
+      + rewrite (H1 vs eq_refl). cbn [bind]. apply Hv.
+      + destruct (to_exprs l) as [xs|]; [|exact I]. destruct (H2 xs eq_refl) as [A [W Ln]].
+        destruct (He xs Ln) as [E1 E2]. cbn [sound_res]. rewrite E1, E2. split; [apply agree_bind; exact A | exact W].
+    - destruct H as [y H]. rewrite H. cbn. eauto.
+    - exact I.
+  Qed.
+
+  Lemma arm_set f items :
+    Forall (fun x => sound_pres (f x) x) items ->
+    sound_res (finish (pmapM f items) (fun vs => PV (VSet vs)) SetE) (ev (S (SetE items))).
+  Proof.
+    intros H. cbn [subst]. rewrite eval_set.
+    apply finish_sound; [apply pmapM_sound; exact H | intros vs; reflexivity |].
+    intros xs _. cbn [subst]. rewrite eval_set, wt_set. split; reflexivity.
+  Qed.
+
+  Lemma arm_ext f fn items :
+    Forall (fun x => sound_pres (f x) x) items ->
+    sound_res (finish (pmapM f items) (fun vs => of_res (call_ext fn vs)) (ExtCall fn)) (ev (S (ExtCall fn items))).
+  Proof.
+    intros H. cbn [subst]. rewrite eval_ext.
+    apply finish_sound; [apply pmapM_sound; exact H | intros vs; apply sound_of_res |].
+    intros xs _. cbn [subst]. rewrite eval_ext, wt_ext. split; reflexivity.
+  Qed.
+
+  Lemma combine_fst_snd {A B} (ks : list A) (xs : list B) :
+    length xs = length ks -> map fst (combine ks xs) = ks /\ map snd (combine ks xs) = xs.
+  Proof.
+    revert xs. induction ks as [|k ks IH]; intros [|x xs] L; cbn in *; try discriminate; auto.
+    destruct (IH xs ltac:(lia)) as [E1 E2]. rewrite E1, E2. auto.
+  Qed.
+
+  Lemma arm_record f items :
+    Forall (fun x => sound_pres (f x) x) (map snd items) ->
+    sound_res (finish (pmapM_rec f items) (fun vs => PV (VRecord (zip_keys items vs)))
+                      (fun xs => RecordE (zip_keys items xs)))
+              (ev (S (RecordE items))).
+  Proof.
+    intros H. rewrite subst_record, eval_record, map_fst_subst, map_snd_subst, pmapM_rec_map.
+    apply (finish_sound _ (map snd items) _ _ (fun vs => Ok (VRecord (combine (map fst items) vs))));
+      [apply pmapM_sound; exact H | intros vs; reflexivity |].
+    intros xs Ln. unfold zip_keys. rewrite subst_record, eval_record, wt_record, map_fst_subst, map_snd_subst.
+    rewrite map_length in Ln.
+    destruct (combine_fst_snd (map fst items) xs ltac:(rewrite map_length; exact Ln)) as [A B0].
+    rewrite A, B0. split; reflexivity.
+  Qed.
+
+  (* ---- projectable residual records ---- *)
+  Lemma proj_list_closed (l : list expr) :
+    (fix go (l : list expr) : bool := match l with [] => true | x :: l' => is_projectable x && go l' end) l
+    = forallb is_projectable l.
+  Proof. induction l as [|x l IH]; [reflexivity|]. cbn [forallb]. rewrite <- IH. reflexivity. Qed.
+  Lemma proj_record l : is_projectable (RecordE l) = forallb is_projectable (map snd l).
+  Proof.
+    cbn [is_projectable]. induction l as [|[k x] l IH]; [reflexivity|]. cbn [map forallb snd]. rewrite <- IH. reflexivity.
+  Qed.
+
+  (* a projectable, well-typed expression cannot fail *)
+  Lemma projectable_total r : is_projectable r = true -> wt r = true -> exists v, ev (S r) = Ok v.
+  Proof.
+    induction r using expr_ind'; intros P W; try discriminate P.
+    - eexists; reflexivity.
+    - eexists; reflexivity.
+    - cbn [wt_expr subst] in *. destruct (sg n) as [v|]; [|discriminate]. destruct (v2e v) as [x|] eqn:V; [|discriminate].
+      exists v. apply (v2e_props sg sl q es v x V).
+    - cbn [is_projectable] in P. rewrite proj_list_closed in P. rewrite wt_set in W. cbn [subst]. rewrite eval_set.
+      assert (L : exists vs, mapM ev (map S items) = Ok vs).
+      { induction H as [|x l Hx Hl IH]; [eexists; reflexivity|]. cbn [forallb] in P, W.
+        apply andb_prop in P. destruct P as [P1 P2]. apply andb_prop in W. destruct W as [W1 W2].
+        destruct (Hx P1 W1) as [v E]. destruct (IH P2 W2) as [vs E']. cbn [map mapM]. rewrite E, E'. eexists; reflexivity. }
+      destruct L as [vs E]. rewrite E. eexists; reflexivity.
+    - rewrite proj_record in P. rewrite wt_record in W. rewrite subst_record, eval_record, map_snd_subst.
+      assert (L : exists vs, mapM ev (map S (map snd items)) = Ok vs).
+      { induction H as [|x l Hx Hl IH]; [eexists; reflexivity|]. cbn [forallb] in P, W.
+        apply andb_prop in P. destruct P as [P1 P2]. apply andb_prop in W. destruct W as [W1 W2].
+        destruct (Hx P1 W1) as [v E]. destruct (IH P2 W2) as [vs E']. cbn [map mapM]. rewrite E, E'. eexists; reflexivity. }
+      destruct L as [vs E]. rewrite E. eexists; reflexivity.
+  Qed.
+
+  (* the value of a record literal, attribute by attribute *)
+  Lemma record_lookup (m : list (str * expr)) a : forall vs,
+    mapM ev (map S (map snd m)) = Ok vs ->
+    match lookup a m with
+    | None => lookup a (combine (map fst m) vs) = None
+    | Some y => exists v, lookup a (combine (map fst m) vs) = Some v /\ ev (S y) = Ok v
+    end.
+  Proof.
+    induction m as [|[k x] m IH]; intros vs E; [reflexivity|].
+    cbn [map mapM fst snd] in E. destruct (ev (S x)) as [v|] eqn:Ex; cbn [bind] in E; [|discriminate].
+    destruct (mapM ev (map S (map snd m))) as [vs'|] eqn:E'; cbn [bind] in E; [|discriminate]. inversion E; subst.
+    cbn [lookup map fst combine]. destruct (str_eqb a k).
+    - exists v. auto.
+    - apply IH. reflexivity.
+  Qed.
+
+  Lemma has_key_record (m : list (str * expr)) a vs :
+    mapM ev (map S (map snd m)) = Ok vs -> has_key a (combine (map fst m) vs) = has_key a m.
+  Proof.
+    intros E. pose proof (record_lookup m a vs E) as H. unfold has_key.
+    destruct (lookup a m); [destruct H as [v [H _]]|]; rewrite H; reflexivity.
+  Qed.
+
+  Lemma lookup_wt (m : list (str * expr)) a y :
+    forallb wt (map snd m) = true -> lookup a m = Some y -> wt y = true.
+  Proof.
+    induction m as [|[k x] m IH]; [discriminate|]. cbn [map forallb snd lookup]. intros W L.
+    apply andb_prop in W. destruct W as [W1 W2]. destruct (str_eqb a k); [inversion L; subst; exact W1 | auto].
+  Qed.
+
+  (* partial_interpret restricted to projectable expressions *)
+  Lemma proj_sound y : wt y = true -> sound_pres (peval_proj mu pq y) y.
+  Proof.
+    induction y using expr_ind'; intros W; try exact I.
+    - reflexivity.
+    - apply Hvar.
+    - apply arm_unknown. exact W.
+    - cbn [peval_proj]. apply arm_set. rewrite wt_set in W.
+      induction H as [|x l Hx Hl IH]; constructor; cbn [forallb] in W; apply andb_prop in W; destruct W; auto.
+    - cbn [peval_proj]. apply arm_record. rewrite wt_record in W.
+      induction H as [|x l Hx Hl IH]; constructor; cbn [forallb] in W; apply andb_prop in W; destruct W; auto.
+  Qed.
+
+  (* ---- getAttr / hasAttr ---- *)
+  Lemma arm_getattr x a : sound_pres (pe x) x -> sound_pres (pe (GetAttr x a)) (GetAttr x a).
+  Proof.
+    unfold sound_pres. cbn [peval subst]. rewrite ev_getattr.
+    destruct (pe x) as [v|r|e|]; cbn [sound_res]; intros H; auto.
+    - rewrite H. cbn [bind]. destruct v as [[| | |u]|l|l|]; try (cbn; eauto; fail).
+      + (* entity *)
+        cbn [get_attr]. pose proof (Hstore u) as St. destruct (find_pentity u pes) as [pd|].
+        * destruct St as [d [F [_ [_ At]]]]. rewrite F. specialize (At a). unfold attr_complete in At.
+          destruct (lookup a (pattrs pd)) as [[v|e]|].
+          -- rewrite At. reflexivity.
+          -- destruct At as [v [L [E W]]]. rewrite L.
+             assert (G : sound_res (PR e) (Ok v)) by (cbn; rewrite E; split; [reflexivity | exact W]).
+             destruct e; try exact G. cbn [peval_entity_attr]. rewrite <- E. apply arm_unknown. exact W.
+          -- rewrite At. cbn. eauto.
+        * rewrite St. cbn. eauto.
+      + (* record *)
+        cbn [get_attr]. destruct (lookup a l); cbn; eauto.
+    - destruct H as [H W].
+      assert (G : sound_res (PR (GetAttr r a)) (do v <- ev (S x); get_attr es v a)).
+      { cbn [sound_res subst wt_expr]. rewrite ev_getattr. split; [apply agree_bind; exact H | exact W]. }
+      destruct r; try exact G.
+      (* the residual is a record literal *)
+      rewrite subst_record, eval_record, map_snd_subst, map_fst_subst in H.
+      destruct (is_projectable (RecordE items)) eqn:P.
+      + destruct (projectable_total _ P W) as [rv E]. rewrite subst_record, eval_record, map_snd_subst, map_fst_subst in E.
+        destruct (mapM ev (map S (map snd items))) as [vs|] eqn:M; cbn [bind] in E, H; [|discriminate].
+        apply agree_sym, agree_ok_r in H. rewrite H. cbn [bind get_attr].
+        pose proof (record_lookup items a vs M) as L. destruct (lookup a items) as [y|] eqn:LK.
+        * destruct L as [v [L E']]. rewrite L. rewrite <- E'. apply proj_sound.
+          rewrite wt_record in W. exact (lookup_wt items a y W LK).
+        * rewrite L. cbn. eauto.
+      + destruct (has_key a items) eqn:K; [exact G|].
+        destruct (mapM ev (map S (map snd items))) as [vs|] eqn:M; cbn [bind] in H.
+        * apply agree_sym, agree_ok_r in H. rewrite H. cbn [bind get_attr].
+          rewrite <- (has_key_record items a vs M) in K. unfold has_key in K.
+          destruct (lookup a (combine (map fst items) vs)); [discriminate|]. cbn. eauto.
+        * destruct (ev (S x)); cbn in H; [contradiction|]. cbn. eauto.
+    - destruct H as [y H]. rewrite H. cbn. eauto.
+  Qed.
+
+
+  Lemma has_key_complete pd d a :
+    (forall k, attr_complete (lookup k (pattrs pd)) (lookup k (eattrs d))) ->
+    has_key a (eattrs d) = has_key a (pattrs pd).
+  Proof.
+    intros At. specialize (At a). unfold has_key, attr_complete in *.
+    destruct (lookup a (pattrs pd)) as [[v|e]|]; [| destruct At as [v [At _]] |]; rewrite At; reflexivity.
+  Qed.
+
+  Lemma arm_hasattr x a : sound_pres (pe x) x -> sound_pres (pe (HasAttr x a)) (HasAttr x a).
+  Proof.
+    unfold sound_pres. cbn [peval subst]. rewrite ev_hasattr.
+    destruct (pe x) as [v|r|e|]; cbn [sound_res]; intros H; auto.
+    - rewrite H. cbn [bind]. destruct v as [[| | |u]|l|l|]; try (cbn; eauto; fail).
+      cbn [has_attr]. pose proof (Hstore u) as St. destruct (find_pentity u pes) as [pd|].
+      + destruct St as [d [F [_ [_ At]]]]. rewrite F. cbn [sound_res]. rewrite (has_key_complete pd d a At). reflexivity.
+      + rewrite St. reflexivity.
+    - destruct H as [H W].
+      assert (G : sound_res (PR (HasAttr r a)) (do v <- ev (S x); has_attr es v a)).
+      { cbn [sound_res subst wt_expr]. rewrite ev_hasattr. split; [apply agree_bind; exact H | exact W]. }
+      destruct r; try exact G.
+      destruct (is_projectable (RecordE items)) eqn:P; [|exact G].
+      destruct (projectable_total _ P W) as [rv E].
+      rewrite subst_record, eval_record, map_snd_subst, map_fst_subst in E, H.
+      destruct (mapM ev (map S (map snd items))) as [vs|] eqn:M; cbn [bind] in E, H; [|discriminate].
+      apply agree_sym, agree_ok_r in H. rewrite H. cbn [bind has_attr sound_res].
+      rewrite (has_key_record items a vs M). reflexivity.
+    - destruct H as [y H]. rewrite H. cbn. eauto.
+  Qed.
+
+  (* ---- the dispatching induction: every construct of the expression language ---- *)
+  Lemma Forall_wt (P : expr -> Prop) l :
+    Forall (fun x => wt x = true -> P x) l -> forallb wt l = true -> Forall P l.
+  Proof.
+    induction 1 as [|x l Hx Hl IH]; intros W; constructor; cbn [forallb] in W; apply andb_prop in W; destruct W; auto.
+  Qed.
+
+  Theorem peval_sound e : wt e = true -> sound_pres (pe e) e.
+  Proof.
+    induction e using expr_ind'; intros W.
+    - apply arm_lit.
+    - apply Hvar.
+    - apply arm_slot.
+    - apply arm_unknown. exact W.
+    - cbn [wt_expr] in W. apply andb_prop in W. destruct W as [W W3]. apply andb_prop in W. destruct W as [W1 W2].
+      apply arm_if; auto.
+    - cbn [wt_expr] in W. apply andb_prop in W. destruct W as [W1 W2]. apply arm_and; auto.
+    - cbn [wt_expr] in W. apply andb_prop in W. destruct W as [W1 W2]. apply arm_or; auto.
+    - apply arm_unapp; auto.
+    - cbn [wt_expr] in W. apply andb_prop in W. destruct W as [W1 W2]. apply arm_binapp; auto.
+    - unfold sound_pres. cbn [peval]. apply arm_ext. rewrite wt_ext in W. apply Forall_wt; assumption.
+    - apply arm_getattr; auto.
+    - apply arm_hasattr; auto.
+    - apply arm_like; auto.
+    - apply arm_is; auto.
+    - unfold sound_pres. cbn [peval]. apply arm_set. rewrite wt_set in W. apply Forall_wt; assumption.
+    - unfold sound_pres. cbn [peval]. apply arm_record. rewrite wt_record in W. apply Forall_wt; assumption.
+  Qed.
 End Frag.
+
+(* ---- lifted to policies: the status the authorizer loop records is sound ---- *)
+(* the concrete outcome of the policy under the substitution: evaluate (sg condition) *)
+Definition eval_policy_subst (sg : mapper) (q : request) (es : entities) (p : policy) : res bool :=
+  do v <- eval (penv p) q es (subst sg (pcondition p)); as_bool v.
+
+Lemma policy_status_sound (sg mu : mapper) pq pes q es p :
+  (forall n v, mu n = Some v -> sg n = Some v) ->
+  (forall sl v, sound_pres sg sl q es (peval_var pq v) (Var v)) ->
+  (forall sl, store_complete sg sl pes q es) ->
+  wt_expr sg (pcondition p) = true ->
+  peval_policy mu (penv p) pq pes p <> SOut ->
+  status_sound (peval_policy mu (penv p) pq pes p) (eval_policy_subst sg q es p).
+Proof.
+  intros Hmu Hvar Hst W N.
+  pose proof (peval_sound sg mu (penv p) pq pes q es Hmu (Hvar (penv p)) (Hst (penv p)) (pcondition p) W) as H.
+  unfold peval_policy, eval_policy_subst, sound_pres in *.
+  destruct (peval mu (penv p) pq pes (pcondition p)) as [v|r|e|]; cbn [sound_res] in H.
+  - rewrite H. cbn [bind]. destruct (as_bool v) as [[|]|]; cbn; eauto.
+  - exact I.
+  - destruct H as [x H]. rewrite H. cbn. eauto.
+  - congruence.
+Qed.
+
+(* (q, es) is a sg-completion of (pq, pes), and sg is complete and well-typed for the policies ps
+   (whose partial evaluation stays inside the model) *)
+Definition completion (sg : mapper) (pq : prequest) (pes : pentities) (q : request) (es : entities)
+                      (ps : list policy) : Prop :=
+  (forall sl v, sound_pres sg sl q es (peval_var pq v) (Var v)) /\
+  (forall sl, store_complete sg sl pes q es) /\
+  (forall p, In p ps -> wt_expr sg (pcondition p) = true /\
+                        peval_policy no_mapping (penv p) pq pes p <> SOut).
+
+(* glue: instantiate the view lemmas with the proved per-policy soundness *)
+Lemma completion_sound sg pq pes q es ps :
+  completion sg pq pes q es ps ->
+  forall p, In p ps -> status_sound (peval_policy no_mapping (penv p) pq pes p) (eval_policy_subst sg q es p).
+Proof.
+  intros [Hv [Hs Hp]] p I. destruct (Hp p I) as [W N].
+  apply policy_status_sound; auto. intros n v E; discriminate E.
+Qed.
+
+Lemma decision_final sg pq pes q es ps d :
+  completion sg pq pes q es ps ->
+  pdecision (pitems (is_authorized_partial ps pq pes)) = Some d ->
+  rdecision (authorize_with (eval_policy_subst sg q es) ps) = d.
+Proof.
+  intros C. apply decision_sound. intros p I. apply status_sound_weak. apply (completion_sound _ _ _ _ _ _ C p I).
+Qed.
+
+Lemma determining_final sg pq pes q es ps i :
+  completion sg pq pes q es ps ->
+  (In i (must_be_determining (pitems (is_authorized_partial ps pq pes))) ->
+   In i (rreasons (authorize_with (eval_policy_subst sg q es) ps))) /\
+  (In i (rreasons (authorize_with (eval_policy_subst sg q es) ps)) ->
+   In i (may_be_determining (pitems (is_authorized_partial ps pq pes)))).
+Proof.
+  intros C. split; [apply must_sound | apply may_sound];
+    intros p I; apply status_sound_weak; apply (completion_sound _ _ _ _ _ _ C p I).
+Qed.
+
+Lemma definitely_final sg pq pes q es ps i :
+  completion sg pq pes q es ps ->
+  (In i (definitely_satisfied (pitems (is_authorized_partial ps pq pes))) ->
+   exists p, In p ps /\ pid p = i /\ eval_policy_subst sg q es p = Ok true) /\
+  (In i (definitely_errored (pitems (is_authorized_partial ps pq pes))) ->
+   exists p e, In p ps /\ pid p = i /\ eval_policy_subst sg q es p = Err e) /\
+  (In i (trivially_false (pitems (is_authorized_partial ps pq pes))) ->
+   exists p, In p ps /\ pid p = i /\ eval_policy_subst sg q es p = Ok false).
+Proof.
+  intros C. repeat split; [apply satisfied_sound | apply errored_sound | apply false_sound];
+    intros p I; apply (completion_sound _ _ _ _ _ _ C p I).
+Qed.
